@@ -272,6 +272,10 @@ void Telnetd::Impl::onRecvSub(const TcpServer::ConnToken &ct, Opt opt, const uin
     LogTrace("opt:%x, data:%s", opt, util::string::RawDataToHexStr(p, s).c_str());
     auto st = client_to_session_.at(ct);
     if (opt == kWINDOW) {
+        //! the peer decides how long the sub-negotiation is, don't read beyond it
+        if (s < 4)
+            return;
+
         uint16_t w = p[0] << 8 | p[1];
         uint16_t h = p[2] << 8 | p[3];
         wp_terminal_->onRecvWindowSize(st, w, h);
